@@ -28,6 +28,7 @@
   generated code (pinned terms of harness/c10_stream.go).
 -/
 import Cog.Sem.DefaultsPyHolds
+import Cog.Sem.DefaultsPasses
 import Cog.Gen.Chains
 namespace Cog.Sem.Defaults
 open Cog.Sem Cog.IR Cog.Passes Cog.Gen.Chains
@@ -116,6 +117,23 @@ theorem C10_agree_partial (fuelg fuelp : Nat) (sg sp : Schemas) (pkg name : Stri
   rw [hname] at h2
   exact ⟨h1, h2, fun hf => by rw [holds_flat_member hf h1, holds_flat_member hf h2]⟩
 
+/-- Python, instance independence: the default of a fitting member is never a mutable object sitting
+    in the `__init__` signature (evaluated once, shared by every instance): collection / reference /
+    enum / union members get `= None` and the printed expression is evaluated by each call -/
+theorem C10_py_independent_partial (fuel : Nat) (ss : Schemas) (f : Field) (pf : PyField)
+    (h : pyField fuel ss f = .ok pf) (hfit : pyFits ss f = true) : pySharedDefault pf = false :=
+  py_fits_not_shared h hfit
+
+/-- the configured pass `disjunction_with_constant_to_default`: `"auto" | string` and
+    `string | "auto"` both leave a scalar that declares the constant as its default -/
+theorem C10_constant_disjunction_declares (name : String) (req : Bool) (kind : String) (c : Val)
+    (cs cs' : List Constraint) (mo mc : Meta) (info : DisjInfo) (m : Meta) (hc : c.isNilV = false) :
+    declaredOf { name := name, ty := cddHook (.disj [.scalar kind c cs' mc, .scalar kind .nil cs mo] info m), required := req }
+      = valJson c ∧
+    declaredOf { name := name, ty := cddHook (.disj [.scalar kind .nil cs mo, .scalar kind c cs' mc] info m), required := req }
+      = valJson c :=
+  cdd_declares_constant name req kind c cs cs' mo mc info m hc
+
 /-! ## non-vacuity: a schema with a default of every value type that satisfies the hypotheses -/
 
 def m0 : Meta := {}
@@ -154,6 +172,13 @@ example : (match goDefaults 8 exGo "p" "Root" with
 example : (match pyDefaults 8 exGo "p" "Root" with
     | .ok jp => exGoFields.all fun f => (match declaredOf f with | some j => holds jp f.name j | none => false)
     | _ => false) = true := by decide +kernel
+
+/-- the list member of the example: `= None` in the signature, the list is built by each call -/
+example : (match pyField 4 exGo { name := "l", ty := .array (sc "string" m0) { mN with dflt := .list [.str "a", .str "b"] }, required := false } with
+    | .ok (.optional (some (.list _))) => true | _ => false) = true := by decide +kernel
+example : cddHook (.disj [.scalar "string" (.str "auto") [] m0, sc "string" m0] {} m0)
+    = .scalar "string" .nil [] { m0 with dflt := .str "auto" } := by
+  simp [cddHook, sc, Val.isNilV, m0]
 
 /-- an OpenAPI integer default arrives as float64: `42.0` prints `42`, a well-typed int literal -/
 example : goFits [] { name := "n", ty := sc "int64" { mN with dflt := .float "f64" "42" }, required := false } = true := by
